@@ -52,6 +52,7 @@ def run(P, R, tier, cfg):
         _fixpoint(P, R, L)
         _pass_state_fresh(P, R, L)
         _candidates_per_pass(P, R, L)
+        _skip_sets_record_firings(P, R, L)
     _callees(P, R, fls)
 
 
@@ -533,6 +534,29 @@ def _candidates_per_pass(P, R, L):
                       " in any later pass even after a firing changed what is eligible (ActivateAgendaGroup)" if hoisted else " in that pass"), fn)
     else:
         R.hold("d", "%s: each pass walks the full, un-narrowed get_rules_by_salience()%s" % (fn.short_name, " (taken once; the rule set cannot change during a run)" if hoisted else ""), fn=fn)
+
+
+def _skip_sets_record_firings(P, R, L):
+    """d (third addition). The no-loop gate skips a rule because of what `fired_rules_global` holds. A pass that fires nothing
+    is a fixpoint only if that set holds rules that FIRED: every write to it inside the cycle loop must lie behind the true
+    edge of the condition evaluation (a name entered when the rule is merely looked at - `!set.insert(name)` used as the
+    test - makes a rule whose condition was false at first unfireable for good)."""
+    fn = L.fn
+    if L.cond_switch is None:
+        return
+    fe, te = A.bool_edges(fn, L.cond_switch)
+    n = 0
+    for (c, recv) in A.calls_with_receiver_field(fn, "fired_rules_global", ENGINE):
+        if c.bb not in L.outer["body"] or not c.name.endswith(("HashSet::insert", "HashSet::extend", "HashSet::replace", "HashSet::get_or_insert_with")):
+            continue
+        n += 1
+        if fn.edge_dominates(L.cond_switch, te, ("sw", "otherwise"), c.bb):
+            R.hold("d", "%s: fired_rules_global is written only after the rule's condition evaluated to true" % fn.short_name, fn=fn, line=c.line)
+        else:
+            R.violate("d", "skip-set-written-before-firing:%s" % fn.name,
+                      "%s enters a rule into fired_rules_global at line %d, which is not behind the true edge of its condition evaluation: the no-loop gate then skips a rule that never fired, and a pass that fires nothing is not a fixpoint" % (fn.short_name, c.line), fn, c.line)
+    if n == 0:
+        R.note("%s never writes fired_rules_global inside the cycle loop" % fn.short_name)
 
 
 def _pass_state_fresh(P, R, L):
